@@ -116,6 +116,8 @@ func Load(dir string, needSSA bool, extraEnv ...string) (*Program, error) {
 		}
 		return a.Pos() < b.Pos()
 	})
+	curProgram = p
+	roTableCache = map[*ssa.Global]*roTable{}
 	return p, nil
 }
 
